@@ -8,8 +8,8 @@ import (
 	"fmt"
 	"os"
 	"sort"
-	"strings"
 	"strconv"
+	"strings"
 
 	"golang.org/x/tools/go/ssa"
 )
